@@ -81,6 +81,23 @@ func levLike(kind string) align.SubstitutionMatrix {
 	for k, v := range align.Levenshtein {
 		m[k] = v
 	}
+	if kind == "LevByteMatch" {
+		// not Levenshtein-like at all: match +2, mismatch -1, gap -2 over all 255 byte values
+		for k := range m {
+			switch {
+			case k[0] == 255 && k[1] == 255:
+				m[k] = 0
+			case k[0] == 255 || k[1] == 255:
+				m[k] = -2
+			case k[0] == k[1]:
+				m[k] = 2
+			default:
+				m[k] = -1
+			}
+		}
+		levLikeOnce[kind] = m
+		return m
+	}
 	isDigit := func(c byte) bool { return c >= '0' && c <= '9' }
 	isLetter := func(c byte) bool { return c|0x20 >= 'a' && c|0x20 <= 'z' }
 	isVowel := func(c byte) bool { return isLetter(c) && strings.IndexByte("aeiou", c|0x20) >= 0 }
@@ -111,6 +128,7 @@ func levLike(kind string) align.SubstitutionMatrix {
 func init() {
 	shippedMatrices["LevCaseInsensitive"] = func() align.SubstitutionMatrix { return levLike("LevCaseInsensitive") }
 	shippedMatrices["LevWeighted"] = func() align.SubstitutionMatrix { return levLike("LevWeighted") }
+	shippedMatrices["LevByteMatch"] = func() align.SubstitutionMatrix { return levLike("LevByteMatch") }
 }
 
 var shippedNames = []string{"Levenshtein", "PAM120", "PAM160", "PAM250", "BLOSUM45", "BLOSUM62", "BLOSUM80"}
@@ -417,6 +435,39 @@ func megaAlignCases(opens []int, quick bool, emit func(AlignCase) bool) bool {
 				break
 			}
 		}
+		// a short query against a long subject: the two halves of a with thousands of foreign
+		// letters between them (one insertion run across columns 1025, 2049, ...; mismatches dear)
+		for _, na := range []int{32, 300} {
+			q := realDNA(na, 77, false, false)
+			for _, gap := range []int{700, 3000} {
+				filler := bytes.Repeat([]byte("T"), gap)
+				for i := range filler {
+					filler[i] = "TG"[i%2]
+				}
+				subj := append(append(bytes.Clone(q[:na/2]), filler...), q[na/2:]...)
+				for _, local := range []bool{false, true} {
+					if !emit(AlignCase{A: q, B: subj, M: dna(2, -9, -1, open), Local: local, Light: true}) || !emit(AlignCase{A: subj, B: q, M: dna(2, -9, -1, open), Local: local, Light: true}) {
+						return false
+					}
+				}
+			}
+		}
+		// a shared core with w extra letters at the start of one sequence and at the end of the
+		// other: the only optimal alignment runs w diagonals off the corner diagonal
+		if open == 0 {
+			core := append(append(bytes.Repeat([]byte("A"), 500), 'T'), bytes.Repeat([]byte("A"), 500)...)
+			ws := []int{64, 128}
+			if !quick {
+				ws = []int{63, 64, 65, 128, 256}
+			}
+			for _, w := range ws {
+				x := append(bytes.Clone(core), bytes.Repeat([]byte("G"), w)...)
+				y := append(bytes.Repeat([]byte("C"), w), core...)
+				if !emit(AlignCase{A: x, B: y, M: MatSpec{Named: "Levenshtein"}, Light: true}) || !emit(AlignCase{A: y, B: x, M: MatSpec{Named: "Levenshtein"}, Light: true}) {
+					return false
+				}
+			}
+		}
 		for _, n := range []int{255, 256, 257, 511, 512, 513, 767, 768, 769} {
 			x := realDNA(n, 90+n%7, false, false)
 			for v, y := range [][]byte{append([]byte("GAT"), x...), append(bytes.Clone(x), 'T', 'C')} {
@@ -437,6 +488,38 @@ func megaAlignCases(opens []int, quick bool, emit func(AlignCase) bool) bool {
 
 // levLikeCases: the caller's own full-byte matrices that resemble Levenshtein.
 func levLikeCases(emit func(AlignCase) bool) bool {
+	// sequences that together use every byte value 0..254, the last-met one twice
+	{
+		var a, b []byte
+		for i := 0; i < 128; i++ {
+			a = append(a, byte(i))
+		}
+		for i := 254; i >= 128; i-- {
+			b = append(b, byte(i))
+		}
+		b = append(b, 128, 'e', 'a', 128)
+		// ... and two sequences of 256 letters that each use all 255 values, the 255th twice
+		var x, y []byte
+		for i := 0; i < 255; i++ {
+			x = append(x, byte(i))
+			y = append(y, byte(254-i))
+		}
+		x, y = append(x, 254), append(y, 254)
+		for _, name := range []string{"LevByteMatch", "LevWeighted"} {
+			for _, local := range []bool{false, true} {
+				if !emit(AlignCase{A: x, B: y, M: MatSpec{Named: name}, Local: local, Light: true}) || !emit(AlignCase{A: y, B: x, M: MatSpec{Named: name}, Local: local, Light: true}) {
+					return false
+				}
+			}
+		}
+		for _, name := range []string{"LevByteMatch", "LevCaseInsensitive", "LevWeighted", "Levenshtein"} {
+			for _, local := range []bool{false, true} {
+				if !emit(AlignCase{A: a, B: b, M: MatSpec{Named: name}, Local: local, Light: true}) || !emit(AlignCase{A: b, B: append(bytes.Clone(a), b...), M: MatSpec{Named: name}, Local: local, Light: true}) {
+					return false
+				}
+			}
+		}
+	}
 	words := []string{"", "a", "A", "Kitten", "sITTing", "kitten", "flaw", "LAWN", "b4d", "bad", "a1b2c3", "abcabc", "AEIOU", "uoiea", "x9", "9x", "Saturday", "sunday", "\x00\xfeA", "aA"}
 	for _, name := range []string{"LevCaseInsensitive", "LevWeighted"} {
 		for _, a := range words {
@@ -725,6 +808,18 @@ func realAlignCases(opens []int, sizes []int, emit func(AlignCase) bool) bool {
 					if !emit(AlignCase{A: a, B: b, M: twins, Local: local}) {
 						return false
 					}
+				}
+			}
+		}
+		// letters that tools fold together have scores of their own: an RNA matrix (U, no T) and a
+		// matrix that has both T and U
+		rna := MatSpec{Letters: gen.B("ACGU"), Pair: [][]int{{3, -2, -1, -3}, {-2, 4, -3, -1}, {-1, -3, 2, -2}, {-3, -1, -2, 5}}, DelGap: []int{-1, -1, -2, -2}, InsGap: []int{-1, -1, -2, -2}, Open: open}
+		tu := MatSpec{Letters: gen.B("ACGTU"), Pair: [][]int{{3, -2, -1, -3, -2}, {-2, 4, -3, -1, -3}, {-1, -3, 2, -2, -1}, {-3, -1, -2, 5, 1}, {-2, -3, -1, 1, 7}}, DelGap: []int{-1, -1, -2, -2, -3}, InsGap: []int{-1, -1, -2, -2, -3}, Open: open}
+		for _, pr := range [][2]string{{"ACGU", "ACGU"}, {"GGAUCCUUAG", "GAUCUUAGG"}, {"UUUUUUUU", "UUUAUUU"}, {"ACGUACGUACGUACGUACGU", "ACGUACGACGUACGUUACGU"}} {
+			for _, local := range []bool{false, true} {
+				if !emit(AlignCase{A: gen.B(pr[0]), B: gen.B(pr[1]), M: rna, Local: local}) || !emit(AlignCase{A: gen.B(pr[0]), B: gen.B(strings.ReplaceAll(pr[1], "U", "T")), M: tu, Local: local}) ||
+					!emit(AlignCase{A: gen.B(pr[1]), B: gen.B(pr[0]), M: tu, Local: local}) {
+					return false
 				}
 			}
 		}
